@@ -314,6 +314,38 @@ Theorem C18_download_streams_when_unread : forall cfg b r,
 Proof. exact download_streams_when_unread. Qed.
 Print Assumptions C18_download_streams_when_unread.
 
+(* ---- a failing body read surfaces for EVERY body transformer (installed or not, failing or not) ---- *)
+Theorem C18_read_error_kept_for_every_transformer : forall b r e tf,
+  r_err r = None -> r_cached r = false -> r_present r = true -> b_read b = Some e ->
+  to_bytes (with_tf tf b) r = (set_cached true (set_err (Some e) r), Some e).
+Proof. exact read_error_kept_for_every_transformer. Qed.
+Print Assumptions C18_read_error_kept_for_every_transformer.
+
+Theorem C18_read_failure_surfaces_for_every_transformer : forall tg b r w e tf,
+  applicable tg r = Some w -> r_err r = None -> r_cached r = false -> b_read b = Some e ->
+  snd (parse_response_body tg (with_tf tf b) r) = Some e /\
+  r_err (fst (parse_response_body tg (with_tf tf b) r)) = Some e /\
+  r_result (fst (parse_response_body tg (with_tf tf b) r)) = r_result r /\
+  r_error (fst (parse_response_body tg (with_tf tf b) r)) = r_error r.
+Proof. exact read_failure_surfaces_for_every_transformer. Qed.
+Print Assumptions C18_read_failure_surfaces_for_every_transformer.
+
+(* the auto-read drops ToBytes' return value and relies on the error being RECORDED *)
+Theorem C18_auto_read_error_is_seen : forall fl cfg a s chk b e tf,
+  a_getbody a = None -> a_transport a = TResp s chk (with_tf tf b) -> Forall is_user (a_cli a) ->
+  c_autoread cfg = true -> autoread_status_ok s = true -> c_save cfg = false -> b_read b = Some e ->
+  exists r l, round_trip fl cfg a = (Some r, r_err r, l) /\ r_err r = last_wins (Some e) (a_cli a) /\
+              r_result r = false /\ r_error r = ENone.
+Proof. exact auto_read_error_is_seen. Qed.
+Print Assumptions C18_auto_read_error_is_seen.
+
+(* the refactoring that runs the transformer regardless of the read error loses it (seeded b-m2) *)
+Theorem C18_unguarded_transformer_loses_read_error :
+  let b := mkBody (Some 7) None None None None None in
+  let r := mkResp true 200 None None false false ENone in
+  to_bytes_unguarded b r = (set_cached true r, None) /\ to_bytes b r = (set_cached true (set_err (Some 7) r), Some 7).
+Proof. exact unguarded_transformer_loses_read_error. Qed.
+
 (* ---- any state checker: the verdict of a custom resultStateCheckFunc is an arbitrary value ---- *)
 Theorem C18_custom_checker_decides : forall r s, r_present r = true -> r_chk r = Some s -> result_state r = s.
 Proof. exact custom_checker_decides. Qed.
